@@ -602,6 +602,7 @@ package header
 //@ func EncodeSACKBlocks props C15 C06
 //@   ensures result == 0 || result == imin(imin(len(sackBlocks), 4), (len(b) - 2) / 8) * 8 + 2
 //@   ensures implies(imin(imin(len(sackBlocks), 4), (len(b) - 2) / 8) <= 0, result == 0)
+//@   ensures implies(imin(imin(len(sackBlocks), 4), (len(b) - 2) / 8) > 0, result == imin(imin(len(sackBlocks), 4), (len(b) - 2) / 8) * 8 + 2)
 //@   ensures implies(result != 0, b[0] == 5 && int(b[1]) == result && result <= len(b))
 //@   ensures forall(j, 0, (result - 2) / 8,
 //@             be32(b, j*8+2) == uint32(sackBlocks[j].Start) && be32(b, j*8+6) == uint32(sackBlocks[j].End))
